@@ -11,10 +11,10 @@ NOTES = "All checks are property-based tests / bounded-exhaustive enumerations a
 PENDING = "check not built yet in this revision of /verif (work in progress); will be claimed once its machinery exists"
 
 add("C01", "mb2-check+sandbox", "property-based testing over generated adversarial regions in a guard-page sandbox; extent oracle",
-    "Generated adversarial boot informations (all kinds, tampered sizes/counts/strides/indices) are loaded and fully exercised in a forked child with the region flush against PROT_NONE pages; any signal, step-bound overrun or returned reference outside its tag is a violation. Exploration: finds crashes and escaping references, cannot prove their absence.",
-    "guard pages are byte-exact only on the flush side; reads removed by the optimiser are invisible; D16 (VBE memory-model enum) is an open known finding excluded by construction", "DESIGN.md §4 C01")
+    "Generated adversarial boot informations (all kinds, tampered sizes/counts/strides/indices) are loaded and fully exercised in a forked child with the region flush against PROT_NONE pages; any signal, step-bound overrun or returned reference outside its tag is a violation. Also: stand-alone tags ending at the guard page, tag lists of up to 60 000 (200 000) tags on a 1 MiB stack, polling after a caught panic, secondary iterator methods, Debug of advanced iterators; thorough tier adds libFuzzer/ASan campaigns (fuzz_mbi, fuzz_tag) with out-of-tag poisoning. Exploration: finds crashes and escaping references, cannot prove their absence.",
+    "guard pages are byte-exact only on the flush side; reads removed by the optimiser are invisible; no known finding is open (the exclusion machinery for D16 is inert)", "DESIGN.md §4 C01")
 add("C02", "mb2-check+sandbox", "bounded-exhaustive + property-based testing of load() against the statement's decision table",
-    "Every total-size word 0..=72 and every multiple of 8 with its neighbours up to 1024/4096, 8 end-tag variants, plus generated sizes up to 1 MiB, on a mapping that provides exactly the declared bytes; oracle is the precedence table of the statement.",
+    "Every total-size word 0..=72 and every multiple of 8 with its neighbours up to 1024/4096, 8 end-tag variants, plus generated sizes up to 1 MiB on a mapping that provides exactly the declared bytes, sizes up to 2^32-1 on a lazily mapped 4 GiB region, interiors with end-tag look-alikes, and regions whose interior is a (well-formed or broken) tag chain; oracle is the precedence table of the statement.",
     "memory behind the pointer is valid for max(8, r8(total size)) bytes, as the statement grants", "DESIGN.md §4 C02")
 add("C03", "mb2-check", "bounded-exhaustive + property-based differential against the reference walk; model-based iterator histories",
     "All walks over regions of up to 5 (6) payload words by DFS over size words, generated regions with tampered sizes, and next/clone/fresh histories checked against an index-into-the-walk model.",
@@ -33,7 +33,7 @@ add("C06", "mb2-check", "model-based testing of builder call histories; exhausti
     "Generated call histories and all singletons/pairs/triples, plus all 2^14 (quick) / 2^22 (thorough) subsets, are built, loaded and compared as a multiset with the model of the builder.",
     "tag images are captured from the supplied tags themselves (the statement compares against the supplied tag), constructors' documented preconditions are respected", "DESIGN.md §4 C06")
 add("C07", "mb2-check", "property-based testing of constructors against an independent encoder (round-trip + differential)",
-    "All 38 public constructors with byte-marked/boundary/random arguments and every content length 0..=40 compared with the independent little-endian encoder, the ID constants, accessor read-back and placement probes for as_bytes().",
+    "All 38 public constructors with byte-marked/boundary/random arguments and every content length 0..=40 compared with the independent little-endian encoder, the ID constants, accessor read-back and placement probes for as_bytes(); the 22 fixed-size constructors additionally inside four separately compiled configurations ({dev, release} x {default, no default features}).",
     "padding bytes inside argument structures (EFIMemoryDesc) are masked; constructor preconditions respected", "DESIGN.md §4 C07")
 add("C09", "mb2-check+sandbox", "property-based testing over generated adversarial headers in a guard-page sandbox; extent oracle",
     "As C01 for multiboot2-header: adversarial headers with defined enumerated fields are loaded and fully exercised in a forked child flush against PROT_NONE pages.",
@@ -70,7 +70,7 @@ add("C20", "mb2-check", "exhaustive 2^32 enumeration (thorough) / stratified sam
     "the exhaustive sweep runs in the release build; the dev build runs the stratified sample", "DESIGN.md §4 C20")
 
 add("C08", "mb2-check+transcript", "differential testing of four separately compiled configurations over generated inputs",
-    "Generated well-formed and malformed boot informations and headers are sent to four transcript servers built from the same driver source as {dev, release} x {default features, no default features}; the address-free transcripts of load/walk/decode must be byte-identical.",
+    "Generated well-formed and malformed boot informations and headers are sent to four transcript servers built from the same driver source as {dev, release} x {default features, no default features}; the address-free transcripts of load/walk/decode (incl. nth/count, polling after a caught panic), of 16-byte basic headers with lengths up to 2^32-1, and of find_header must be byte-identical.",
     "four configurations on one 64-bit host and toolchain; Debug renderings and derived sums are outside 'decoding stored data' and not compared", "DESIGN.md §4 C08")
 ENGINES.append({"name": "transcript", "path": "transcript", "serves_properties": ["C08"],
      "kind_free_text": "stand-alone transcript server built in four configurations; serves each request in a forked child on guarded memory"})
